@@ -372,9 +372,10 @@ def A12_extend_bookkeeping(repo, clause):
         if conv:
             cname = conv[0].targets[0].id
             for k in KINDS:
-                cs = [c for c in calls_named(fn, cname) if c.args and kind_of(ast.unparse(c.args[0])) == k]
-                ok_k = len(cs) == 1 and isinstance(cs[0].args[0], ast.Attribute) and isinstance(cs[0].args[0].value, ast.Name) \
-                    and cs[0].args[0].value.id != "self"
+                cs = [c for c in calls_named(fn, cname) if c.args and kind_of(ast.unparse(expand(fn, c.args[0]))) == k]
+                a0_ = expand(fn, cs[0].args[0]) if cs else None
+                ok_k = len(cs) == 1 and isinstance(a0_, ast.Attribute) and isinstance(a0_.value, ast.Name) \
+                    and a0_.value.id != "self"
                 obs.append(Ob("A12", clause, fn, cs[0] if cs else conv[0], ok_k,
                               "the other's %s tuples are re-targeted through the merged index map" % k, slot="convert:%s" % k,
                               undecided=not cs and any(not (c.args and kind_of(ast.unparse(c.args[0]))) for c in calls_named(fn, cname))))
